@@ -124,6 +124,12 @@ add("C18", "exploration",
     "Allocation-failure aborts would escape catch_unwind (none observed); compression levels >= 15 are sampled.",
     "DESIGN.md section 5 C18")
 
+add("C19", "exploration",
+    "runtime differential monitor: the same store driven alternately through a cached and an uncached handle, every read-type operation executed through both at the same logical point; cache-directory invariant after listings; planted cache faults; never-cached twin repository for end-state comparison",
+    "Held on the generated histories (one listed known finding: a by-id read before any listing still serves a file another handle removed). Sampling.",
+    "Both handles live in one process; 'another process' is the uncached handle acting between operations of the cached one.",
+    "DESIGN.md section 5 C19")
+
 NOT_YET = "check not built yet (work in progress in this round)"
 
 def main():
